@@ -29,3 +29,11 @@ sv_t verif_slice_nii(sv_t indices, sv_t shape, int stop, int step)            { 
 sv_t verif_slice_nin(sv_t indices, sv_t shape, int stop)                      { return ix::slice(indices, shape, nmtools_tuple<none_t,int,none_t>{None,stop,None}); }
 sv_t verif_slice_nni(sv_t indices, sv_t shape, int step)                      { return ix::slice(indices, shape, nmtools_tuple<none_t,none_t,int>{None,None,step}); }
 sv_t verif_slice_nnn(sv_t indices, sv_t shape)                                { return ix::slice(indices, shape, nmtools_tuple<none_t,none_t,none_t>{None,None,None}); }
+
+// ---- 2-d: integer index (drops its axis) + 2-tuple slice: a[i, start:stop] ----------------------------------------
+sv_t verif_shape_slice_2d_int_ii(sv_t shape, int i, int start, int stop)            { return ix::shape_slice(shape, i, nmtools_tuple<int,int>{start,stop}); }
+sv_t verif_slice_2d_int_ii(sv_t indices, sv_t shape, int i, int start, int stop)     { return ix::slice(indices, shape, i, nmtools_tuple<int,int>{start,stop}); }
+
+// ---- rank r = 3..8 (symbolic): integer, tuple, Ellipsis, integer: a[i, ::step, ..., j]  (Ellipsis expands to r-3 full axes)
+sv_t verif_shape_slice_ell(sv_t shape, int i, int step, int j)              { return ix::shape_slice(shape, i, nmtools_tuple<none_t,none_t,int>{None,None,step}, Ellipsis, j); }
+sv_t verif_slice_ell(sv_t indices, sv_t shape, int i, int step, int j)      { return ix::slice(indices, shape, i, nmtools_tuple<none_t,none_t,int>{None,None,step}, Ellipsis, j); }
